@@ -244,14 +244,21 @@ class FakeRe:
     """`re` stand-in (installed as pexpect.spawnbase.re while tracing) for the patterns pexpect
     itself compiles from strings: escape-free literals -> LitPat, '.{n}' -> DotN.  Records
     (pattern, flags) of every compile."""
-    DOTALL = _real_re.DOTALL
-    IGNORECASE = _real_re.IGNORECASE
+    def __getattr__(self, name):
+        # flag constants (DOTALL, IGNORECASE, UNICODE, ...) are the real ones
+        if name.isupper():
+            return getattr(_real_re, name)
+        raise AttributeError(name)
 
     def __init__(self):
         self.compiled = []
 
     def compile(self, p, flags=0):
         self.compiled.append((p, flags))
+        if _isb(p):
+            pat = LitPat(p)
+            pat.flags = flags
+            return pat
         if type(p) is str and p == '':
             return _PatBase()
         if type(p) is str and p.startswith('.{') and p.endswith('}') and p[2:-1].lstrip('-').isdigit():
